@@ -802,7 +802,8 @@ def draw_history(rng, cfg, timeline, profile=None, twin_probes=None):
     cuts = sorted(cuts)
     kinds = profile.get('fault_kinds',
                         ['stop_resume', 'stop_resume', 'kill', 'kill',
-                         'slice', 'timeout', 'toggle', 'observe'])
+                         'kill_in_write', 'slice', 'timeout', 'toggle',
+                         'observe'])
     if not ckpt:
         kinds = [k for k in kinds if k not in ('stop_resume', 'kill',
                                                 'kill_in_write')] or [
